@@ -178,6 +178,10 @@ def lines_with_loops(path):
     def add(e, loops, st):
         if isinstance(e, ast.Starred):
             e = e.value
+            if isinstance(e, (ast.List, ast.Tuple)):
+                for x in e.elts:
+                    add(x, loops, st)
+                return
         if _is_each(e):
             add(e.args[0], loops + (norm(e.args[1]),), st)
         elif isinstance(e, (ast.Tuple, ast.Dict)) and st is not None:
